@@ -264,7 +264,8 @@ def cases():
 
     def colander_missing_binary(work):
         from amr_kitchen.colander import Colander
-        os.remove(os.path.join(work, P, "Level_1", "Cell_D_00000"))
+        l1 = os.path.join(work, P, "Level_1")
+        os.remove(os.path.join(l1, sorted(f for f in os.listdir(l1) if f.startswith("Cell_D_"))[0]))
         Colander(plotfile=P, output="res/strained", variables=["all"]).strain()
     add("colander/unreadable-input", {"plt00010": "plt00010"}, colander_missing_binary, [os.path.join("res/strained")])
 
